@@ -4,7 +4,7 @@
 From Coq Require Import List ZArith.
 From Coq Require Import Permutation Sorting.Sorted.
 From RtoscV Require Import Osc.OscModel Osc.OscReadProofs Ports.MetaModel Ports.NameModel Ports.PathModel
-                           Ports.PathProofs Ports.SearchProofs Ports.PathRegress.
+                           Ports.PathProofs Ports.SearchProofs Ports.PathRegress Ports.WalkModel Ports.WalkProofs Ports.LookupProofs.
 Import ListNotations.
 Local Open Scope Z_scope.
 
@@ -122,3 +122,23 @@ Theorem C18_search_nonvacuous :
   path_search ex_table [] [] SortedUniquePrefix =
     SOk (map hit_of [Port [97;47] None None; Port [97;47] None None; Port [98] None None]).
 Proof. exact ex_search. Qed.
+
+(* ---- lookup of walked addresses ----------------------------------------------
+   Full statement (kept visible; NOT proved in general):
+     forall root (well-formed: literal characters are not digits or pattern
+       characters, sub-tree names end in '/', 1 <= N),
+       no concrete name of a port is a prefix of a concrete name of a sibling ->
+       forall id a, In (id, a) (walk root) -> apropos root a = AFound id.
+   It is checked on every run by the tie (model = implementation on every
+   generated tree x walked address) and by the Python Spec oracle; below: a
+   computed instance with '#N' at two levels (138 addresses), and the witness
+   that the side condition must exclude literal digits next to an enumeration. *)
+Theorem C18_lookup_example : lookup_all (map render_port ex_numeric_s) = true.
+Proof. exact lookup_example. Qed.
+
+Theorem C18_lookup_digit_alias_refuted :
+  walk None alias_tree [] =
+    WOk [([0%nat], [47;97;48;98]); ([0%nat], [47;97;49;98]); ([0%nat], [47;97;50;98]);
+         ([0%nat], [47;97;51;98]); ([1%nat], [47;97;48;49;98])] [47] /\
+  apropos alias_tree [47;97;48;49;98] = AFound [0%nat].
+Proof. exact lookup_digit_alias. Qed.
